@@ -4,7 +4,7 @@ import urllib.parse as U
 from . import common
 from .common import Exc
 from .oracle_env import env_for
-from .url_grammar import gen_url, gen_host, call
+from .url_grammar import gen_url, gen_host, call, wrap_redirect, wrap_junk
 
 THEOREMS = ['C07_get_normalized_hostname', 'C07_get_fingerprinted_hostname'] + ["(main statement: harness deciders on the implementation + model correspondence — partial)"]
 
@@ -15,15 +15,19 @@ def run(res, tier, rng):
     from ural.lru import canonicalized_lru_stems, normalized_lru_stems, fingerprinted_lru_stems, lru_stems
     from ural import canonicalize_url
 
-    urls = ["fr-FR.facebook.com/a", "https://WWW.Lemonde.FR:8080/x", " http://m.x.com \n", "http://r.com/?url=http%3A%2F%2Fwww.t.co.uk%2Fp", "http://xn--caf-dma.fr/", "amp-x.com"]
+    urls = ["https://bc.marfeelcache.com/amp/www.lemonde.fr/article/1.html", "bc.marfeel.com/m.lefigaro.fr/actu", "https://www-x-com.cdn.ampproject.org/c/s/www.x.com/a", "fr-FR.facebook.com/a", "https://WWW.Lemonde.FR:8080/x", " http://m.x.com \n", "http://r.com/?url=http%3A%2F%2Fwww.t.co.uk%2Fp", "http://xn--caf-dma.fr/", "amp-x.com"]
     hosts = ["fr-FR.facebook.com", "www.lemonde.fr", "M.X.COM", "fr.wikipedia.org", "xn--caf-dma.fr", "a.b.co.uk", "amp-x.com", "en-gb.example.co.uk", "us.x.com", "x.com", " www.x.com "]
     for _ in range(2500 if tier == "quick" else 40000):
         u = gen_url(rng)
         r = rng.random()
-        if r < 0.1:
+        if r < 0.06:
             u = " " + u + "\t"
-        elif r < 0.2:
+        elif r < 0.12:
+            u = wrap_junk(u, rng)
+        elif r < 0.18:
             u = "http://r.com/?url=" + U.quote(u, safe="")
+        elif r < 0.32:
+            u = wrap_redirect(u, rng)
         urls.append(u)
     for _ in range(400 if tier == "quick" else 6000):
         h = gen_host(rng)
@@ -138,7 +142,7 @@ def run(res, tier, rng):
     for fid, text in sorted(hits.items()):
         res.known_hits.append((fid, text))
     res.nontrivial = nontriv
-    res.rule = ("urls of the C01 grammar (with surrounding whitespace, wrapped in redirects) and bare hostnames (language labels, irrelevant subdomains, punycode, multi-label suffixes): "
+    res.rule = ("urls of the C01 grammar (with surrounding whitespace / control characters, wrapped in every redirect family infer_redirection knows: query keys, google /url?q=, ampproject, marfeel, youtube /redirect, relative targets, l.facebook.com) and bare hostnames (language labels, irrelevant subdomains, punycode, multi-label suffixes): "
                 "get_normalized_hostname / get_fingerprinted_hostname vs the host of normalize_url / fingerprint_url (unsplit=False) x normalize_amp x infer_redirection x strip_suffix; "
                 "bare-hostname forms; get_hostname vs the standard parser; the three stem variants vs lru_stems of the url-level result (minus the scheme stem) x suffix_aware; "
                 "model vs implementation for the six helpers and the three variant stem functions. Non-trivial = urls with a host on which the first agreement holds.")
